@@ -6,7 +6,8 @@
 (*                                                                         *)
 (* A document is a sequence of tokens from a fixed table (bytes of every   *)
 (* token below; the harness does not know the tables, it receives bytes).  *)
-(* JS documents are one or two statements from JsStmts joined by one of    *)
+(* JS documents are one statement from JsStmts, or one of them before or   *)
+(* after one of the first three, joined by one of                          *)
 (* JsSeps (all five line-break kinds occur, multi-byte characters occur in *)
 (* strings, identifiers, comments); JSON documents are JsonDocs.  The      *)
 (* harness first requires the untouched document to parse, then inserts    *)
@@ -56,7 +57,25 @@ JsTok ==
      crlf     |-> <<13, 10>>,   \* '\r\n'
      ls       |-> <<226, 128, 168>>,   \* '\u2028'
      ps       |-> <<226, 128, 169>>,   \* '\u2029'
-     tab      |-> <<9>>]   \* '\t'
+     tab      |-> <<9>>,   \* '\t'
+     re       |-> <<47, 120, 92, 47, 91, 47, 93, 47, 103>>,   \* '/x\\/[/]/g'
+     class    |-> <<99, 108, 97, 115, 115>>,   \* 'class'
+     A        |-> <<65>>,   \* 'A'
+     m        |-> <<109>>,   \* 'm'
+     for      |-> <<102, 111, 114>>,   \* 'for'
+     qdot     |-> <<63, 46>>,   \* '?.'
+     q        |-> <<63>>,   \* '?'
+     c        |-> <<99>>,   \* 'c'
+     d        |-> <<100>>,   \* 'd'
+     async    |-> <<97, 115, 121, 110, 99>>,   \* 'async'
+     await    |-> <<97, 119, 97, 105, 116>>,   \* 'await'
+     g        |-> <<103>>,   \* 'g'
+     try      |-> <<116, 114, 121>>,   \* 'try'
+     catch    |-> <<99, 97, 116, 99, 104>>,   \* 'catch'
+     e        |-> <<101>>,   \* 'e'
+     tplA     |-> <<96, 120, 36, 123>>,   \* '`x${'
+     tplM     |-> <<125, 121, 36, 123>>,   \* '}y${'
+     tplZ     |-> <<125, 122, 96>>]   \* '}z`'
 JsonTok ==
     [lbr      |-> <<91>>,   \* '['
      rbr      |-> <<93>>,   \* ']'
@@ -90,8 +109,18 @@ JsStmts == <<
     <<"ide", "eq", "tpl0", "b", "tpl1">>,                                       \* é=`t${b}v`
     <<"a", "eq", "lp", "x", "rp", "arrow", "x", "plus", "n1">>,                 \* a=(x)=>x+1
     <<"a", "dot", "b", "lp", "n1", "rp">>,                                      \* a.b(1)
-    <<"lb", "lf", "tab", "a", "eq", "str", "crlf", "rb">>                       \* {\n\ta='é€'\r\n}
+    <<"lb", "lf", "tab", "a", "eq", "str", "crlf", "rb">>,                      \* {\n\ta='é€'\r\n}
+    <<"a", "eq", "re">>,                                                        \* a=/x\/[/]/g
+    <<"class", "sp", "A", "lb", "m", "lp", "rp", "lb", "rb", "rb">>,            \* class A{m(){}}
+    <<"for", "lp", "semi", "semi", "rp", "lb", "rb">>,                          \* for(;;){}
+    <<"a", "qdot", "b">>,                                                       \* a?.b
+    <<"a", "eq", "b", "q", "c", "colon", "d">>,                                 \* a=b?c:d
+    <<"async", "sp", "function", "sp", "g", "lp", "rp", "lb", "await", "sp", "x", "rb">>,  \* async function g(){await x}
+    <<"try", "lb", "rb", "catch", "lp", "e", "rp", "lb", "rb">>,                \* try{}catch(e){}
+    <<"a", "eq", "tplA", "b", "tplM", "c", "tplZ">>                             \* a=`x${b}y${c}z`
 >>
+\* statements that every statement is combined with (before and after it) in two-statement documents
+JsTails == 1..3
 JsSeps == << <<"semi">>, <<"lf">>, <<"crlf">>, <<"cr">>, <<"ls">>, <<"ps">>, <<"semi", "lf", "sp">> >>
 
 JsonDocs == <<
@@ -117,8 +146,9 @@ Next == /\ doc = <<>>
         /\ \/ /\ "js" \in Suites /\ suite' = "js"
               /\ \/ \E i \in DOMAIN JsStmts : doc' = JsStmts[i]
                  \/ /\ TwoStmts
-                    /\ \E i \in DOMAIN JsStmts, j \in DOMAIN JsStmts, s \in DOMAIN JsSeps :
-                          doc' = JsStmts[i] \o JsSeps[s] \o JsStmts[j]
+                    /\ \E i \in DOMAIN JsStmts, j \in JsTails, s \in DOMAIN JsSeps :
+                          \/ doc' = JsStmts[i] \o JsSeps[s] \o JsStmts[j]
+                          \/ doc' = JsStmts[j] \o JsSeps[s] \o JsStmts[i]
            \/ /\ "json" \in Suites /\ suite' = "json"
               /\ \E i \in DOMAIN JsonDocs : doc' = JsonDocs[i]
 Spec == Init /\ [][Next]_gvars
